@@ -90,6 +90,33 @@ class AppWorld:
         self.last_out = out
         return self._common("after tick fn=%d" % fn, v)
 
+    def handler_tick(self, fn):
+        """The clock handler invoked for an arbitrary frame number (what the clock
+        thread does after IND CLOCK), without advancing the generator's own counter."""
+        v = []
+        world.capture.reset()
+        try:
+            self.app.clck_handler(fn)
+        except Exception as e:
+            v.append(("exception", "clck_handler(%d): %s: %s" % (fn, type(e).__name__, e)))
+        out = self.fab.reset_out()
+        recs = world.capture.reset()
+        m = self.model
+        saved = (m.fn, m.clock_running, m.ind_period)
+        m.fn, m.clock_running, m.ind_period = fn, True, 0
+        exps, stale = m.tick()
+        m.fn, m.clock_running, m.ind_period = saved
+        if exps is not None:
+            mm = trxmodel.match(exps, out)
+            if mm:
+                v.append(("tick", "handler fn=%d: %s" % (fn, mm)))
+        nstale = sum(1 for lv, msg in recs if "Stale TRXD message" in msg)
+        if nstale != len(stale):
+            v.append(("stale", "handler fn=%d: %d stale report(s), reference expects %d" % (fn, nstale, len(stale))))
+        self.last_out = out
+        self.last_stale = nstale
+        return v
+
     def burst(self, i, fn, tn=0, pwr=0, bits=None, ver=None):
         """convenience: L1->TRX datagram built by the reference encoder"""
         if bits is None:
